@@ -359,7 +359,7 @@ def keygen_history(rng: Rng, res, viol, tier):
     which = rng.pick(["oct", "oct", "EC", "EC", "OKP", "OKP", "RSA"])
     mats, raw = [], []
     if which == "oct":
-        bits = rng.pick([8, 16, 64, 128, 192, 256, 384, 512])
+        bits = rng.pick([8, 16, 64, 128, 192, 256, 384, 512, 72, 136, 200, 520, 8 * rng.randrange(8, 130)])
         n = max(n, 140) if bits >= 64 else n
         for i in range(n):
             k = OctKey.generate_key(bits) if i % 2 else JWKRegistry.generate_key("oct", bits)
@@ -372,9 +372,10 @@ def keygen_history(rng: Rng, res, viol, tier):
         else:
             mats = []      # 8 / 16 bit keys must repeat in a history this long
     elif which == "RSA":
-        bits = rng.pick([1024, 2048])
+        # every multiple of 8 is a legal request: the modulus has the requested size, not a "normalised" one
+        bits = rng.pick([1024, 2048, 1032, 1096, 1536, 2056, 2104, 8 * rng.randrange(64, 260)])
         for i in range(3 if tier == "quick" else 6):
-            k = RSAKey.generate_key(bits)
+            k = RSAKey.generate_key(bits) if i % 2 == 0 else JWKRegistry.generate_key("RSA", bits)
             nn = k.raw_value.private_numbers().public_numbers.n
             if nn.bit_length() != bits:
                 viol("keygen:rsa-size", "generated RSA modulus has %d bits, %d requested" % (nn.bit_length(), bits), i)
